@@ -19,7 +19,8 @@ MANIFEST = {
             "intercepted from outside: the names are the ones jit computes, the code class is a hash of exactly what "
             "jit hands to cffi (source and cdef with names normalised, final compiler arguments, libraries, debug flag).  "
             "code -> spec: the recorded behaviour is validated by TLC against HistoryTrace.tla; a rejected registry write "
-            "is the violation (with a diff of the two normalised sources for a collision).",
+            "is the violation (with a diff of the two normalised sources for a collision).  In every run a module name, an "
+            "identifier code point and a definition list are corrupted in copies of the trace and TLC must reject each there.",
     "design_ref": "DESIGN.md section 4 C13, section 6 F2",
     "note": "Trusted: the interception points (jit.get_cached_module, jit.cffi), the name normalisation and the file-scope "
             "scanner in harness/histdrv/worker.py.  Bounded: the request algebra of harness/histdrv/corpus_meta.py; the "
